@@ -1,4 +1,5 @@
 import DymVerif.Lemmas.SponsClaim
+import DymVerif.Lemmas.GenEqSpons
 /-
   Props/C16 — Sponsorship weights track staked power; endorsement claims are bounded.
 
